@@ -53,6 +53,9 @@ def cases(tier):
         # a call that returns with the container lock still held blocks the other thread for ever: no one-at-a-time ordering explains a call
         # that never returns, so the lock-balance assertion of the interleaving harnesses is C13's obligation as well as C14's
         c.co_owned = r'^C14\.(sched|seq)\.lock\b'
+        # a memory-safety failure inside an interleaving query (e.g. CBMC's memcpy/free preconditions: a value copied after the lock was released while the
+        # other thread frees it) has no sequential explanation either - the same calls one at a time are memory-safe (C11): C13 owns it here
+        c.safety_owner = 'C13'
     return out
 
 
